@@ -175,9 +175,9 @@ func (s *kvSubj[K]) IterSnapshot() iterSnap {
 
 type modelCursor struct {
 	moves int
-	pos  int
-	snap iterSnap
-	cur  Cursor
+	pos   int
+	snap  iterSnap
+	cur   Cursor
 }
 
 // apply performs the move on the model; ret is meaningful when hasRet.
